@@ -829,9 +829,37 @@ def _kind_of(fn, in_class):
     return "method"
 
 
+def _ancestors(trees):
+    """class -> the classes it derives from (by name, within the analysed files), itself included"""
+    bases = {}
+    for t in trees.values():
+        for c in t.body:
+            if isinstance(c, ast.ClassDef):
+                bases[c.name] = [b.id for b in c.bases if isinstance(b, ast.Name)]
+    out = {}
+    for c in bases:
+        seen, todo = set(), [c]
+        while todo:
+            x = todo.pop()
+            if x in seen:
+                continue
+            seen.add(x)
+            todo += bases.get(x, [])
+        out[c] = seen
+    return out
+
+
 def inline_new_helpers(trees, inv, news):
     """news: {(mod, scope): names of functions the inventory does not know}"""
     helpers = {}
+    ancs = _ancestors(trees)
+
+    def same_cls(sc, scope):
+        # the helper's class is the caller's class or one it derives from (a new name cannot be overridden by an inventory class; two new
+        # definitions of one name are left alone)
+        return sc == scope or (sc in ancs.get(scope, ()) and len(by_name_count.get(sc_name[0], ())) == 1)
+    sc_name = [None]
+    by_name_count = {}
     for mod, t in trees.items():
         for scope, owner, fn in scopes(t):
             if fn.name in news.get((mod, scope), ()) and not (fn.name.startswith("__") and fn.name.endswith("__")):
@@ -843,6 +871,7 @@ def inline_new_helpers(trees, inv, news):
     by_name = {}
     for (scope, nm), v in helpers.items():
         by_name.setdefault(nm, []).append((scope, v))
+    by_name_count.update(by_name)
     done = []
     touched = []
     counter = [0]
@@ -852,7 +881,8 @@ def inline_new_helpers(trees, inv, news):
         if isinstance(f, ast.Name) and f.id in by_name:
             return any(sc == "" and v[3] == "func" for sc, v in by_name[f.id])
         if isinstance(f, ast.Attribute) and f.attr in by_name and isinstance(f.value, ast.Name):
-            return any(sc and ((v[3] == "method" and f.value.id == "self" and sc == scope) or (v[3] in ("static", "class") and f.value.id in ("self", "cls", sc)))
+            sc_name[0] = f.attr
+            return any(sc and ((v[3] == "method" and f.value.id == "self" and same_cls(sc, scope)) or (v[3] in ("static", "class") and f.value.id in ("self", "cls", sc)))
                        for sc, v in by_name[f.attr])
         return False
 
@@ -949,8 +979,9 @@ def inline_new_helpers(trees, inv, news):
                                         if sc == "" and v[3] == "func":
                                             tgt, recv = v, None
                                 elif isinstance(f, ast.Attribute) and f.attr in by_name and isinstance(f.value, ast.Name):
+                                    sc_name[0] = f.attr
                                     for sc, v in by_name[f.attr]:
-                                        if sc and v[3] == "method" and f.value.id == "self" and sc == scope:
+                                        if sc and v[3] == "method" and f.value.id == "self" and same_cls(sc, scope):
                                             tgt, recv = v, f.value
                                         elif sc and v[3] == "static" and f.value.id in ("self", "cls", sc):
                                             tgt, recv = v, None
@@ -983,8 +1014,9 @@ def inline_new_helpers(trees, inv, news):
                                 if sc == "" and vv[3] == "func":
                                     v = vv
                         elif isinstance(f, ast.Attribute) and f.attr in by_name and isinstance(f.value, ast.Name):
+                            sc_name[0] = f.attr
                             for sc, vv in by_name[f.attr]:
-                                if sc and vv[3] == "method" and f.value.id == "self" and sc == scope:
+                                if sc and vv[3] == "method" and f.value.id == "self" and same_cls(sc, scope):
                                     v, recv = vv, f.value
                                 elif sc and vv[3] == "static" and f.value.id in ("self", "cls", sc):
                                     v = vv
@@ -1517,6 +1549,387 @@ def listcomps_to_loops(trees, inv):
     return notes
 
 
+def erase_new_namedtuples(trees, inv):
+    """a NamedTuple class the inventory does not know is a tuple with named positions: `C(a, b)` is `(a, b)`, `x.field` is `x[k]`,
+    a method `x.m(..)` is the module-level function `_C__m(x, ..)` (which the helper pass may then write out).  Only for field / method
+    names the inventory's code never uses as an attribute name, and never for two new classes that disagree on a field's position."""
+    known = set(inv.get("methods_of", {}))
+    vocab = {tk[2:] for m in inv.get("functions", {}).values() for toks in m.values() for tk in toks if tk.startswith("A:")}
+    vocab |= {a for c in inv.get("attrs", {}).values() for a in c}
+    nts = {}
+    for mod, t in trees.items():
+        for c in t.body:
+            if not (isinstance(c, ast.ClassDef) and c.name not in known and not c.decorator_list and not c.keywords):
+                continue
+            if not any((isinstance(b, ast.Name) and b.id == "NamedTuple") or (isinstance(b, ast.Attribute) and b.attr == "NamedTuple") for b in c.bases) or len(c.bases) != 1:
+                continue
+            fields, methods, ok = [], [], True
+            for st in c.body:
+                if isinstance(st, ast.AnnAssign) and isinstance(st.target, ast.Name):
+                    fields.append((st.target.id, st.value))
+                elif isinstance(st, ast.FunctionDef) and not st.decorator_list and st.args.args and st.args.args[0].arg == "self" \
+                        and not (st.name.startswith("__") and st.name.endswith("__")):
+                    methods.append(st)
+                elif isinstance(st, ast.Expr) and isinstance(st.value, ast.Constant):
+                    pass
+                elif isinstance(st, ast.Pass):
+                    pass
+                else:
+                    ok = False
+            if ok and fields:
+                nts[c.name] = (mod, t, c, fields, methods)
+    if not nts:
+        return []
+    pos, bad = {}, set()
+    for cn, (mod, t, c, fields, methods) in nts.items():
+        for k, (f, _) in enumerate(fields):
+            if f in vocab or (f in pos and pos[f] != k):
+                bad.add(f)
+            pos.setdefault(f, k)
+    meth = {}
+    for cn, (mod, t, c, fields, methods) in nts.items():
+        for m in methods:
+            if m.name in vocab or m.name in meth or m.name in pos:
+                bad.add(m.name)
+            meth[m.name] = (cn, m)
+    # a class with a doubtful name is left as it is, entirely
+    skip = {cn for cn, (mod, t, c, fields, methods) in nts.items() if any(f in bad for f, _ in fields) or any(m.name in bad for m in methods)}
+    nts = {k: v for k, v in nts.items() if k not in skip}
+    if not nts:
+        return []
+    pos = {f: k for cn, v in nts.items() for k, (f, _) in enumerate(v[3])}
+    meth = {m.name: (cn, m) for cn, v in nts.items() for m in v[4]}
+    failed = set()
+
+    class R(ast.NodeTransformer):
+        def visit_Call(self, n):
+            self.generic_visit(n)
+            f = n.func
+            if isinstance(f, ast.Name) and f.id in nts:
+                fields = nts[f.id][3]
+                vals = [None] * len(fields)
+                if any(isinstance(a, ast.Starred) for a in n.args) or any(k.arg is None for k in n.keywords) or len(n.args) > len(fields):
+                    failed.add(f.id)
+                    return n
+                for k, a in enumerate(n.args):
+                    vals[k] = a
+                names = [x for x, _ in fields]
+                for k in n.keywords:
+                    if k.arg not in names or vals[names.index(k.arg)] is not None:
+                        failed.add(f.id)
+                        return n
+                    vals[names.index(k.arg)] = k.value
+                for k, (x, d) in enumerate(fields):
+                    if vals[k] is None:
+                        if d is None:
+                            failed.add(f.id)
+                            return n
+                        vals[k] = _clone(d)
+                return ast.copy_location(ast.Tuple(elts=vals, ctx=ast.Load()), n)
+            if isinstance(f, ast.Attribute) and f.attr in meth:
+                cn, m = meth[f.attr]
+                return ast.copy_location(ast.Call(func=ast.Name(id="_%s__%s" % (cn.strip("_"), m.name), ctx=ast.Load()), args=[f.value] + n.args, keywords=n.keywords), n)
+            return n
+
+        def visit_Attribute(self, n):
+            self.generic_visit(n)
+            if n.attr in pos and isinstance(n.ctx, ast.Load):
+                return ast.copy_location(ast.Subscript(value=n.value, slice=ast.Constant(value=pos[n.attr]), ctx=ast.Load()), n)
+            return n
+    snapshot = {mod: _clone(t) for mod, t in trees.items()}
+    for mod, t in trees.items():
+        R().visit(t)
+    if failed:
+        # a construction that could not be written as a display: nothing of this pass is kept
+        for mod in trees:
+            trees[mod].body[:] = snapshot[mod].body
+        return []
+    notes = []
+    for cn, (mod, t, c, fields, methods) in nts.items():
+        idx = t.body.index(c)
+        lifted = []
+        for m in methods:
+            m.name = "_%s__%s" % (cn.strip("_"), m.name)
+            lifted.append(m)
+        c.body[:] = [st for st in c.body if st not in methods] or [ast.Pass()]
+        t.body[idx + 1:idx + 1] = lifted
+        notes.append("new NamedTuple %s read as a plain tuple (%s)" % (cn, ", ".join(f for f, _ in fields)))
+    for t in trees.values():
+        ast.fix_missing_locations(t)
+    return notes
+
+
+def split_new_tuple_locals(trees, inv):
+    """a local the inventory's version of the function lacks, bound only to tuple displays of one length and used only as `t[0]`, `t[1]` ..:
+    one local per position (`t_0`, `t_1`), each bound where the tuple was"""
+    notes = []
+    for mod, t in trees.items():
+        for scope, owner, fn in list(scopes(t)):
+            q = (scope + "." if scope else "") + fn.name
+            new = genuinely_new_locals(fn, mod, q, inv)
+            if not new:
+                continue
+            inner = {id(y) for z in ast.walk(fn) if isinstance(z, (ast.FunctionDef, ast.Lambda)) and z is not fn for y in ast.walk(z)}
+            done = []
+            bound = _bound_names(fn)
+            for nm in sorted(new):
+                stores = [x for x in ast.walk(fn) if isinstance(x, ast.Name) and x.id == nm and isinstance(x.ctx, (ast.Store, ast.Del))]
+                loads = [x for x in ast.walk(fn) if isinstance(x, ast.Name) and x.id == nm and isinstance(x.ctx, ast.Load)]
+                if not stores or not loads or any(id(x) in inner for x in stores + loads):
+                    continue
+                assigns = [x for x in ast.walk(fn) if isinstance(x, ast.Assign) and len(x.targets) == 1 and isinstance(x.targets[0], ast.Name) and x.targets[0].id == nm]
+                if len(assigns) != len(stores) or not all(isinstance(a.value, ast.Tuple) and not any(isinstance(e, ast.Starred) for e in a.value.elts) for a in assigns):
+                    continue
+                arity = {len(a.value.elts) for a in assigns}
+                if len(arity) != 1:
+                    continue
+                n_el = arity.pop()
+                subs = [x for x in ast.walk(fn) if isinstance(x, ast.Subscript) and isinstance(x.value, ast.Name) and x.value.id == nm and isinstance(x.ctx, ast.Load)
+                        and isinstance(x.slice, ast.Constant) and type(x.slice.value) is int and 0 <= x.slice.value < n_el]
+                if len(subs) != len(loads) or any("%s_%d" % (nm, k) in bound for k in range(n_el)):
+                    continue
+
+                class S(ast.NodeTransformer):
+                    def visit_Subscript(self, x):
+                        self.generic_visit(x)
+                        if any(x is y for y in subs):
+                            return ast.copy_location(ast.Name(id="%s_%d" % (nm, x.slice.value), ctx=ast.Load()), x)
+                        return x
+                fn.body = [S().visit(st) for st in fn.body]
+                for blk_owner in list(ast.walk(fn)):
+                    for fld in ("body", "orelse", "finalbody"):
+                        blk = getattr(blk_owner, fld, None)
+                        if not (isinstance(blk, list) and blk and isinstance(blk[0], ast.stmt)):
+                            continue
+                        i = 0
+                        while i < len(blk):
+                            st = blk[i]
+                            if any(st is a for a in assigns):
+                                # the elements are evaluated left to right, as the display was; an element that reads a position bound just
+                                # before it cannot occur (the tuple's name is not read inside its own display: checked above through subs/loads)
+                                seq = [ast.copy_location(ast.Assign(targets=[ast.Name(id="%s_%d" % (nm, k), ctx=ast.Store())], value=e), st) for k, e in enumerate(st.value.elts)]
+                                for k, z in enumerate(seq):
+                                    z._inl = getattr(st, "_inl", 0)
+                                blk[i:i + 1] = seq
+                                i += len(seq)
+                                continue
+                            i += 1
+                done.append(nm)
+            if done:
+                ast.fix_missing_locations(fn)
+                notes.append("new tuple locals read position by position in %s: %s" % (q, ", ".join(done)))
+    return notes
+
+
+def new_context_managers_to_try(trees, inv):
+    """a class the inventory does not know whose only methods are __init__, __enter__ and __exit__, with an __exit__ that never swallows
+    the exception (returns nothing / False, ignores its arguments), used as `g = C(..)` ... `with g:` (or `with C(..):`):
+    the constructor's statements where the object is made, then `try: BODY finally: <__exit__'s statements>`, the object's attributes
+    as locals"""
+    known = set(inv.get("methods_of", {}))
+    cms = {}
+    for mod, t in trees.items():
+        for c in t.body:
+            if not (isinstance(c, ast.ClassDef) and c.name not in known and not c.decorator_list and not c.keywords):
+                continue
+            if any(not (isinstance(b, ast.Name) and b.id == "object") for b in c.bases):
+                continue
+            ms = {m.name: m for m in c.body if isinstance(m, ast.FunctionDef)}
+            rest = [x for x in c.body if not isinstance(x, ast.FunctionDef) and not (isinstance(x, ast.Expr) and isinstance(x.value, ast.Constant)) and not isinstance(x, ast.Pass)]
+            if rest or set(ms) - {"__init__", "__enter__", "__exit__"} or not {"__enter__", "__exit__"} <= set(ms):
+                continue
+            if any(m.decorator_list or m.args.vararg or m.args.kwarg or m.args.kwonlyargs for m in ms.values()):
+                continue
+            ex = ms["__exit__"]
+            exargs = {a.arg for a in ex.args.args[1:]}
+            body_ex = [x for x in ex.body if not (isinstance(x, ast.Expr) and isinstance(x.value, ast.Constant))]
+            if body_ex and isinstance(body_ex[-1], ast.Return) and (body_ex[-1].value is None or (isinstance(body_ex[-1].value, ast.Constant) and body_ex[-1].value.value in (False, None))):
+                body_ex = body_ex[:-1]
+            if any(isinstance(y, (ast.Return, ast.Yield, ast.YieldFrom, ast.Await)) for x in body_ex for y in ast.walk(x)):
+                continue
+            if any(isinstance(y, ast.Name) and y.id in exargs for x in body_ex for y in ast.walk(x)):
+                continue
+            en = ms["__enter__"]
+            body_en = [x for x in en.body if not (isinstance(x, ast.Expr) and isinstance(x.value, ast.Constant))]
+            ret_self = False
+            if body_en and isinstance(body_en[-1], ast.Return):
+                r = body_en[-1].value
+                if r is None or (isinstance(r, ast.Constant) and r.value is None):
+                    pass
+                elif isinstance(r, ast.Name) and r.id == "self":
+                    ret_self = True
+                else:
+                    continue
+                body_en = body_en[:-1]
+            if any(isinstance(y, (ast.Return, ast.Yield, ast.YieldFrom, ast.Await)) for x in body_en for y in ast.walk(x)):
+                continue
+            ini = ms.get("__init__")
+            body_in = [x for x in ini.body if not (isinstance(x, ast.Expr) and isinstance(x.value, ast.Constant))] if ini else []
+            if any(isinstance(y, (ast.Return, ast.Yield, ast.YieldFrom, ast.Await)) for x in body_in for y in ast.walk(x)):
+                continue
+            # self only as `self.attr`
+            okself = True
+            for b in (body_in, body_en, body_ex):
+                for x in b:
+                    attr_selfs = {id(y.value) for y in ast.walk(x) if isinstance(y, ast.Attribute) and isinstance(y.value, ast.Name) and y.value.id == "self"}
+                    if any(isinstance(y, ast.Name) and y.id == "self" and id(y) not in attr_selfs for y in ast.walk(x)):
+                        okself = False
+            if not okself or (ini and ini.args.defaults):
+                continue
+            cms[c.name] = (mod, c, [a.arg for a in ini.args.args[1:]] if ini else [], body_in, body_en, body_ex, ret_self)
+    if not cms:
+        return []
+    notes = []
+    counter = [0]
+
+    def subst(stmts, k, binds):
+        class S(ast.NodeTransformer):
+            def visit_Attribute(self, n):
+                if isinstance(n.value, ast.Name) and n.value.id == "self":
+                    return ast.copy_location(ast.Name(id="_cm%d_%s" % (k, n.attr.lstrip("_")), ctx=n.ctx), n)
+                self.generic_visit(n)
+                return n
+
+            def visit_Name(self, n):
+                if n.id in binds and isinstance(n.ctx, ast.Load):
+                    return ast.copy_location(_clone(binds[n.id]), n)
+                return n
+        return [S().visit(_clone(x)) for x in stmts]
+
+    def ctor(e):
+        return isinstance(e, ast.Call) and isinstance(e.func, ast.Name) and e.func.id in cms and not e.keywords \
+            and not any(isinstance(a, ast.Starred) for a in e.args) and len(e.args) == len(cms[e.func.id][2]) and all(_pure_path(a) for a in e.args)
+    for mod, t in trees.items():
+        for scope, owner, fn in list(scopes(t)):
+            withs = [w for w in ast.walk(fn) if isinstance(w, ast.With) and len(w.items) == 1]
+            for w in withs:
+                it = w.items[0]
+                site = None
+                if ctor(it.context_expr):
+                    call = it.context_expr
+                elif isinstance(it.context_expr, ast.Name):
+                    nm = it.context_expr.id
+                    asg = [x for x in ast.walk(fn) if isinstance(x, ast.Assign) and len(x.targets) == 1 and isinstance(x.targets[0], ast.Name) and x.targets[0].id == nm]
+                    refs = [x for x in ast.walk(fn) if isinstance(x, ast.Name) and x.id == nm]
+                    if len(asg) != 1 or len(refs) != 2 or not ctor(asg[0].value):
+                        continue
+                    site, call = asg[0], asg[0].value
+                else:
+                    continue
+                mod_c, c, params, body_in, body_en, body_ex, ret_self = cms[call.func.id]
+                if it.optional_vars is not None:
+                    # `as x` with __enter__ returning the object: x must not be used
+                    if not isinstance(it.optional_vars, ast.Name) or any(isinstance(y, ast.Name) and y.id == it.optional_vars.id and y is not it.optional_vars for y in ast.walk(fn)):
+                        continue
+                counter[0] += 1
+                k = counter[0]
+                binds = dict(zip(params, call.args))
+                # a parameter the constructor re-binds cannot be substituted
+                if any(isinstance(y, ast.Name) and y.id in binds and isinstance(y.ctx, ast.Store) for x in body_in + body_en + body_ex for y in ast.walk(x)):
+                    continue
+                # an attribute that only passes a constructor argument on (`self._graph = graph`) is that argument, when the argument is a
+                # path nothing in the function re-binds
+                passed = {}
+                stored_names = {y.id for y in ast.walk(fn) if isinstance(y, ast.Name) and isinstance(y.ctx, (ast.Store, ast.Del))}
+                nbind = {}
+                for y in ast.walk(fn):
+                    if isinstance(y, ast.Name) and isinstance(y.ctx, (ast.Store, ast.Del)):
+                        nbind[y.id] = nbind.get(y.id, 0) + 1
+                stored_attrs = {y.attr for y in ast.walk(fn) if isinstance(y, ast.Attribute) and isinstance(y.ctx, (ast.Store, ast.Del))}
+                body_in2 = []
+                for x in body_in:
+                    if isinstance(x, ast.Assign) and len(x.targets) == 1 and isinstance(x.targets[0], ast.Attribute) and isinstance(x.targets[0].value, ast.Name) \
+                            and x.targets[0].value.id == "self" and isinstance(x.value, ast.Name) and x.value.id in binds:
+                        arg = binds[x.value.id]
+                        roots = [y.id for y in ast.walk(arg) if isinstance(y, ast.Name)]
+                        attrs_ = [y.attr for y in ast.walk(arg) if isinstance(y, ast.Attribute)]
+                        if all(nbind.get(r, 0) <= 1 for r in roots) and not (set(attrs_) & stored_attrs) and sum(
+                                1 for b in (body_in, body_en, body_ex) for z in b for y in ast.walk(z)
+                                if isinstance(y, ast.Attribute) and isinstance(y.value, ast.Name) and y.value.id == "self" and y.attr == x.targets[0].attr
+                                and isinstance(y.ctx, (ast.Store, ast.Del))) == 1:
+                            passed[x.targets[0].attr] = arg
+                            continue
+                    body_in2.append(x)
+
+                def subst(stmts, k, binds, passed=passed, _s=subst):
+                    names = {"_cm%d_%s" % (k, a.lstrip("_")): v for a, v in passed.items()}
+
+                    class P(ast.NodeTransformer):
+                        def visit_Name(self, n):
+                            if n.id in names and isinstance(n.ctx, ast.Load):
+                                return ast.copy_location(_clone(names[n.id]), n)
+                            return n
+                    return [P().visit(x) for x in _s(stmts, k, binds)]
+                body_in = body_in2
+                pre = subst(body_in, k, binds)
+                ent = subst(body_en, k, binds)
+                fin = subst(body_ex, k, binds)
+                tr = ast.Try(body=w.body, handlers=[], orelse=[], finalbody=fin or [ast.Pass()])
+                for blk_owner in list(ast.walk(fn)):
+                    for fld in ("body", "orelse", "finalbody"):
+                        blk = getattr(blk_owner, fld, None)
+                        if not (isinstance(blk, list) and blk and isinstance(blk[0], ast.stmt)):
+                            continue
+                        for st in list(blk):
+                            i = next(j for j, z in enumerate(blk) if z is st) if any(z is st for z in blk) else None
+                            if i is None:
+                                continue
+                            if st is w:
+                                seq = ([] if site is not None else pre) + ent + [tr]
+                                last_line = max([getattr(y, "lineno", 0) or 0 for b in w.body for y in ast.walk(b)] + [w.lineno])
+                                for z in (pre if site is None else []) + ent:
+                                    for y in ast.walk(z):
+                                        if hasattr(y, "lineno"):
+                                            y.lineno = y.end_lineno = w.lineno
+                                ast.copy_location(tr, w)
+                                for z in tr.finalbody:
+                                    for y in ast.walk(z):
+                                        if hasattr(y, "lineno"):
+                                            y.lineno = y.end_lineno = last_line
+                                blk[i:i + 1] = seq
+                            elif site is not None and st is site:
+                                for z in pre:
+                                    for y in ast.walk(z):
+                                        if hasattr(y, "lineno"):
+                                            y.lineno = site.lineno
+                                            y.end_lineno = site.lineno
+                                blk[i:i + 1] = pre or [ast.copy_location(ast.Pass(), site)]
+                ast.fix_missing_locations(fn)
+                notes.append("new context manager %s read as the try / finally it stands for in %s" % (c.name, fn.name))
+    return notes
+
+
+def fromkeys_to_dictcomps(trees, inv):
+    """`d = dict.fromkeys(IT[, V])` is `{k: V for k in IT}` (first-seen order, duplicates collapse): written as the comprehension so
+    that the comprehension passes below see it.  Only as the whole right-hand side of a local's assignment."""
+    notes = []
+    for mod, t in trees.items():
+        for scope, owner, fn in list(scopes(t)):
+            q = (scope + "." if scope else "") + fn.name
+            for st in ast.walk(fn):
+                if not (isinstance(st, ast.Assign) and len(st.targets) == 1 and isinstance(st.targets[0], ast.Name)):
+                    continue
+                c = st.value
+                if not (isinstance(c, ast.Call) and isinstance(c.func, ast.Attribute) and c.func.attr == "fromkeys" and isinstance(c.func.value, ast.Name)
+                        and c.func.value.id == "dict" and not c.keywords and 1 <= len(c.args) <= 2):
+                    continue
+                val = c.args[1] if len(c.args) == 2 else ast.Constant(value=None)
+                if not isinstance(val, ast.Constant):
+                    continue
+                it = c.args[0]
+                if isinstance(it, (ast.GeneratorExp, ast.ListComp)) and len(it.generators) == 1:
+                    dc = ast.DictComp(key=it.elt, value=val, generators=it.generators)
+                else:
+                    k = "_k_%s" % st.targets[0].id
+                    dc = ast.DictComp(key=ast.Name(id=k, ctx=ast.Load()), value=val,
+                                      generators=[ast.comprehension(target=ast.Name(id=k, ctx=ast.Store()), iter=it, ifs=[], is_async=0)])
+                ast.copy_location(dc, c)
+                st.value = dc
+                ast.fix_missing_locations(st)
+                notes.append("dict.fromkeys read as the dictionary comprehension it abbreviates in %s: %s" % (q, st.targets[0].id))
+    return notes
+
+
 def next_scans_to_loops(trees, inv):
     """`r = next((E for T in IT if C), D)` is the first-match scan `r = D; for T in IT: if C: r = E; break`"""
     notes = []
@@ -1586,6 +1999,8 @@ def canonicalise(trees, specialise=True):
     """in place; -> notes (what was rewritten), for the evidence file"""
     inv = inventory()
     notes = []
+    if inv:
+        notes += erase_new_namedtuples(trees, inv)
     for mod, t in trees.items():
         strip_diagnostics(t)
     if not inv:
@@ -1603,11 +2018,14 @@ def canonicalise(trees, specialise=True):
     if applied:
         # the set of unknown functions shrinks by the renamed ones
         _, news = detect_function_renames(trees, inv)
+    notes += new_context_managers_to_try(trees, inv)
+    notes += fromkeys_to_dictcomps(trees, inv)
     notes += listcomps_to_loops(trees, inv)
     notes += next_scans_to_loops(trees, inv)
     done = inline_new_helpers(trees, inv, news)
     for c, h in done:
         notes.append("inlined new helper %s into %s" % (h, c))
+    notes += split_new_tuple_locals(trees, inv)
     notes += inline_new_aliases(trees, inv)
     notes += inline_new_values(trees, inv)
     if notes:
